@@ -6,6 +6,12 @@ package main
 
 import (
 	"fmt"
+	hclog "github.com/hashicorp/go-hclog"
+	"github.com/hashicorp/go-plugin/runner"
+	"os"
+	"os/exec"
+	"path/filepath"
+	"strings"
 	"sync"
 	"time"
 
@@ -31,6 +37,11 @@ type gbCase struct {
 	// SlowDoorMs: the accepting side's muxer.AcceptKnock is entered this much later (hook point): the order "open the
 	// door, then acknowledge the knock" must not depend on AcceptKnock being quick
 	SlowDoorMs int `json:"slow_door_ms,omitempty"`
+	// SlowServeMs: the brokered servers' set-up (the callback given to AcceptAndServe) takes this long on either side
+	SlowServeMs int `json:"slow_serve_ms,omitempty"`
+	// Translate: the plugin runs under a custom runner in its own directory and advertises RELATIVE socket paths, which
+	// the runner's PluginToHost makes absolute (an address used untranslated does not exist on the host)
+	Translate bool `json:"translate,omitempty"`
 }
 
 func init() {
@@ -68,6 +79,9 @@ func genGrpcBroker(o opts, mux bool) []gbCase {
 			c := gbCase{Mux: true, AutoMTLS: k%3 == 2, Kind: "sequential"}
 			if k%2 == 0 {
 				c.SlowDoorMs = 150
+			}
+			if k%3 == 1 {
+				c.SlowServeMs = 300
 			}
 			t := 0
 			for j := 0; j < 5; j++ {
@@ -114,7 +128,7 @@ func genGrpcBroker(o opts, mux bool) []gbCase {
 		{{0, "host", "accept", 10}, {4000, "plugin", "dial", 11}, {4300, "plugin", "dial", 10}, {5700, "host", "accept", 11}},
 	}
 	for i, evs := range directed {
-		c := gbCase{AutoMTLS: i%3 == 1, Events: evs, Kind: "directed"}
+		c := gbCase{AutoMTLS: i%3 == 1, Events: evs, Kind: "directed", Translate: i%4 == 0, SlowServeMs: 200 * (i % 2)}
 		cs = append(cs, c)
 	}
 	for len(cs) < n {
@@ -188,7 +202,14 @@ func runOneGrpcBroker(c gbCase) []struct{ in, obs sx.V } {
 	if c.SlowDoorMs > 0 {
 		vo.Plugin = map[string]interface{}{"delay_point": "smux.acceptknock", "delay_ms": c.SlowDoorMs}
 	}
-	cl, caller, err := startVP(vo)
+	var cl *plugin.Client
+	var caller vp.Caller
+	var err error
+	if c.Translate {
+		cl, caller, err = startTranslatedVP(vo)
+	} else {
+		cl, caller, err = startVP(vo)
+	}
 	mainOK := 1
 	if err == nil {
 		gb := caller.GRPC()
@@ -200,12 +221,17 @@ func runOneGrpcBroker(c gbCase) []struct{ in, obs sx.V } {
 				case e.Side == "host" && e.Kind == "accept":
 					set(i, result{5, int(e.ID)})
 					gb.AcceptAndServe(e.ID, func(opts []grpc.ServerOption) *grpc.Server {
+						time.Sleep(time.Duration(c.SlowServeMs) * time.Millisecond)
 						s := grpc.NewServer(opts...)
 						vp.Register(s, hostWho(e.ID), gb)
 						return s
 					})
 				case e.Side == "plugin" && e.Kind == "accept":
-					_, err := caller.Call(vp.Req{Op: "accept", ID: e.ID})
+					req := vp.Req{Op: "accept", ID: e.ID}
+					if c.SlowServeMs > 0 {
+						req.K, req.N2 = "slow", c.SlowServeMs
+					}
+					_, err := caller.Call(req)
 					if err == nil {
 						set(i, result{5, int(e.ID)})
 					} else {
@@ -314,4 +340,76 @@ func runGrpcBroker(o opts, mux bool) error {
 	}
 	wg.Wait()
 	return nil
+}
+
+// transRunner: a custom runner that keeps the plugin in a directory of its own and hands it RELATIVE socket directories;
+// PluginToHost turns the relative addresses the plugin advertises into paths that exist on the host.
+type transRunner struct {
+	*procRunner
+	dir string
+}
+
+func (t *transRunner) PluginToHost(network, addr string) (string, string, error) {
+	if network == "unix" && !filepath.IsAbs(addr) {
+		return network, filepath.Join(t.dir, addr), nil
+	}
+	return network, addr, nil
+}
+
+func startTranslatedVP(o vpOpts) (*plugin.Client, vp.Caller, error) {
+	pdir, err := os.MkdirTemp("", "tr")
+	if err != nil {
+		return nil, nil, err
+	}
+	os.MkdirAll(filepath.Join(pdir, "s"), 0o755)
+	cfg := vpClientConfig(o)
+	cmd := cfg.Cmd
+	cfg.Cmd = nil
+	cfg.RunnerFunc = func(l hclog.Logger, spec *exec.Cmd, tmp string) (runner.Runner, error) {
+		real := exec.Command(cmd.Path)
+		real.Dir = pdir
+		var env []string
+		for _, e := range append(append([]string{}, cmd.Env...), spec.Env...) {
+			if strings.HasPrefix(e, plugin.EnvUnixSocketDir+"=") || strings.HasPrefix(e, "TMPDIR=") {
+				continue
+			}
+			env = append(env, e)
+		}
+		real.Env = append(env, plugin.EnvUnixSocketDir+"=s", "TMPDIR=s")
+		pr, err := newProcRunner(real)
+		if err != nil {
+			return nil, err
+		}
+		return &transRunner{procRunner: pr, dir: pdir}, nil
+	}
+	cl := plugin.NewClient(cfg)
+	type res struct {
+		c vp.Caller
+		e error
+	}
+	ch := make(chan res, 1)
+	go func() {
+		rpcc, err := cl.Client()
+		if err != nil {
+			ch <- res{nil, err}
+			return
+		}
+		raw, err := rpcc.Dispense("vp")
+		if err != nil {
+			ch <- res{nil, err}
+			return
+		}
+		ch <- res{bounded(raw.(vp.Caller)), nil}
+	}()
+	select {
+	case x := <-ch:
+		if x.e != nil {
+			go cl.Kill()
+			return nil, nil, x.e
+		}
+		return cl, x.c, nil
+	case <-time.After(25 * time.Second):
+		go cl.Kill()
+		return nil, nil, fmt.Errorf("start did not return in time")
+	}
 }
